@@ -16,4 +16,12 @@ def structUnpackFromI (f : Fmt) (b : Bytes) (off : Nat) : R (List Int) :=
     structUnpackFromI f b off = (structUnpackFrom f b off).map (fun vs => vs.map Int.ofNat) := by
   unfold structUnpackFromI; cases structUnpackFrom f b off <;> rfl
 
+/-- `struct.unpack_from(fmt, b, -k)` for a constant `k > 0`: the offset counts from the end; `struct.error` when it
+    reaches before the start of the buffer (Python: "offset -k out of range") or the item does not fit -/
+def structUnpackFromEndI (f : Fmt) (b : Bytes) (k : Nat) : R (List Int) :=
+  if k ≤ b.length then structUnpackFromI f b (b.length - k) else .error .struct
+
+/-- `b[lo:-k]` for `lo ≥ 0` and a constant `k > 0`: the upper bound is `max (len b - k) 0` -/
+def sliceEndI (b : List α) (lo : Int) (k : Nat) : List α := slice b lo.toNat (b.length - k)
+
 end Acra.Py
